@@ -193,10 +193,27 @@ func genC19Identities(g *gen) {
 	}
 }
 
+// the shape a tensor is constructed from is the caller's slice: the caller overwrites it afterwards (scribble), the tensor is
+// handed back to the pool or reshaped, views and new tensors are created - tensor and slice must not notice each other
+func genC19CallerShapes(g *gen) {
+	for _, dt := range []string{"f64", "i32"} {
+		for _, cons := range []string{"CN", "C"} {
+			for _, sh := range []string{"2,3", "4", "2,2,2"} {
+				g.emit("pool on", fmt.Sprintf("new %s %s %s", dt, sh, cons), "scribble", "dump $0", "slice $0 0", "dump $1", "dump $0")
+				g.emit("pool on", fmt.Sprintf("new %s %s %s", dt, sh, cons), fmt.Sprintf("new %s %s %s", dt, sh, cons), "ret $0", "slice $1 0", "dump $2", "dump $1",
+					fmt.Sprintf("new %s 3,2 C", dt), "T $3 1,0", "dump $3", "dump $1")
+				g.emit("pool on", fmt.Sprintf("new %s %s %s", dt, sh, cons), "reshape $0 "+map[string]string{"2,3": "3,2", "4": "2,2", "2,2,2": "4,2"}[sh], "dump $0", "scribble", "dump $0",
+					"slice $0 0", "dump $1")
+			}
+		}
+	}
+}
+
 func genC19(g *gen) {
 	genC19Products(g)
 	genC19ProductDests(g)
 	genC19Identities(g)
+	genC19CallerShapes(g)
 	nprog := 400
 	maxLen := 40
 	if g.thorough() {
@@ -216,7 +233,7 @@ func genC19(g *gen) {
 		var live []tv
 		newT := func() {
 			sh := [][]int{{2, 3}, {3, 2}, {2, 3, 2}, {4}, {3, 3}, {2, 2, 2}, {6}, {1, 4}, {1, 1}, {1, 1, 1}, {2, 1}}[g.r.intn(11)]
-			steps = append(steps, fmt.Sprintf("new %s %s %s", dt, ints(sh), g.r.pick([]string{"C", "C", "C", "Fraw"})))
+			steps = append(steps, fmt.Sprintf("new %s %s %s", dt, ints(sh), g.r.pick([]string{"C", "C", "CN", "Fraw"})))
 			live = append(live, tv{nv, sh, dt})
 			nv++
 		}
